@@ -130,7 +130,9 @@ def make_canary_one(text, f):
     raw = f.get("raw_contract") or ""
     if not raw.strip():
         return None
-    idx = text.find(raw)
+    m = re.search(r"\bfn\s+%s\s*[<(]" % re.escape(f["fn"]), text)
+    start = m.start() if m else 0
+    idx = text.find(raw, start)
     if idx < 0:
         return None
     if re.search(r"\bensures\b", raw):
